@@ -680,6 +680,9 @@ func observerPure(c *Ctx, g *ssa.Function, depth int) bool {
 			case "builtin.len", "builtin.cap", "builtin.min", "builtin.max":
 				return
 			}
+			if nn := normRef(n); nn == "(http2.goroutineLock).check" || nn == "(http2.goroutineLock).checkNotOn" {
+				return // the debug-only goroutine assertion (DEBUG_HTTP2_GOROUTINES): no effect on the protocol
+			}
 			h := staticCallee(&x.Call)
 			if h == nil || !observerPure(c, h, depth+1) {
 				pure = false
